@@ -37,6 +37,7 @@ void mt_decode_engine(mt_case * c, mt_engine_cfg * e, int maxW) {
 }
 
 static mv_config g_cfg;
+static unsigned cr_b8, cr_b9;   /* creation flavour / pending-cancel configuration bytes of the case */
 int mt_fill_byte, mt_allow_prelude;
 
 /* push and pop are the owner's operations: whoever executes one on a worker's run queue must be running on that worker */
@@ -56,7 +57,23 @@ void mt_freelist_owner_check(int rank, int is_free, int kind) {
   if (me < 0 || !mv_enabled() || rank < 0) return;
   if (rank != me) mt_fail("the unsynchronised per-worker free list of %s of worker %d was %s by a thread running on worker %d", kind == MVA_DESC ? "thread records" : "stacks", rank, is_free ? "pushed to" : "popped from", me);
 }
-static void own_alloc(int kind, void * ptr, size_t size, int rank) { (void)ptr; (void)size; mt_freelist_owner_check(rank, 0, kind); }
+#if defined(__has_feature)
+#if __has_feature(address_sanitizer)
+#define MT_ASAN 1
+void __asan_unpoison_memory_region(void const volatile * addr, size_t size);
+#endif
+#endif
+static size_t own_def_stack;
+static void own_alloc(int kind, void * ptr, size_t size, int rank) {
+  mt_freelist_owner_check(rank, 0, kind);
+#ifdef MT_ASAN
+  /* a finished thread leaves its stack by a jump, so ASan's shadow of a recycled stack still carries the scope
+     poison of the old frames */
+  if (kind == MVA_STACK) { size_t sz = size ? size : own_def_stack; if (sz) { char * hi = (char *)ptr + 16; __asan_unpoison_memory_region(hi - sz, sz); } }
+#else
+  (void)ptr; (void)size;
+#endif
+}
 static void own_free(int kind, void * ptr, size_t size, int rank) { (void)ptr; (void)size; mt_freelist_owner_check(rank, 1, kind); }
 extern void (*volatile myth_verif_alloc_fn)(int, void *, size_t, int) __attribute__((weak));
 extern void (*volatile myth_verif_free_fn)(int, void *, size_t, int) __attribute__((weak));
@@ -76,6 +93,7 @@ void mt_lib_start(mt_case * c, mt_engine_cfg * e, size_t def_stack) {
     if (def_stack) { mt_desc("default stack size %zu\n", def_stack); mt_hash_u(def_stack); }
   }
   if (def_stack) myth_globalattr_set_stacksize(&a, def_stack);
+  own_def_stack = def_stack ? def_stack : 128 * 1024;
   if (mt_fill_byte) mt_desc("synchronisation objects are initialised on memory filled with 0x%02x\n", mt_fill_byte);
   myth_init_ex(&a);
   memset(&g_cfg, 0, sizeof g_cfg);
@@ -93,6 +111,9 @@ void mt_lib_start(mt_case * c, mt_engine_cfg * e, size_t def_stack) {
   mv_set_quiescent_fn(mt_all_queues_empty);
   mt_desc("engine: W=%d mode=%s tail_preempt=%d/256 sched_bytes=%zu seed=%u\n", e->W,
           e->mode == MV_NOISE ? "noise" : "controlled", e->tail_preempt, c->sched_len, c->seed);
+  cr_b8 = c->cfg.n > 8 ? c->cfg.p[8] : 0; cr_b9 = c->cfg.n > 9 ? c->cfg.p[9] : 0;
+  if (c->gen < 1) cr_b8 = cr_b9 = 0;
+  if ((cr_b8 & 1) || (cr_b9 & 7) >= 6) { mt_desc("thread creation: %s%s\n", (cr_b8 & 1) ? "flavours rotate (NULL attribute, attribute object, parent-first, parent-first + 70000-byte stack, 70000-byte stack)" : "NULL attribute", (cr_b9 & 7) == 7 ? "; every created thread has a deferred cancellation request pending" : (cr_b9 & 7) == 6 ? "; every other created thread has a deferred cancellation request pending" : ""); mt_hash_u(((uint64_t)cr_b8 << 8) | cr_b9); }
   int prelude = mt_allow_prelude && c->gen >= 1 && c->cfg.n >= 8 && (c->cfg.p[5] & 8) && (c->cfg.p[5] & 7);
   if (prelude) mt_desc("prelude: %d steps of unrelated library use before the program (kinds %02x, args %02x: detached / detach / join threads, custom stacks, keys)\n", c->cfg.p[5] & 7, c->cfg.p[6], c->cfg.p[7]);
   mt_flush_early();
@@ -156,7 +177,32 @@ static void mt_prelude(mt_case * c) {
   mt_hash_u(((uint64_t)b5 << 16) | ((uint64_t)b6 << 8) | b7);
 }
 
+/* ---------------- creation flavours ---------------- */
+typedef struct { myth_func_t fn; void * arg; int cancel; } cr_t;
+static cr_t cr_pool[8192]; static volatile int cr_n; static long cr_stat[6];
+static void * cr_tramp(void * p) {
+  cr_t * c = p;
+  /* cancellation is deferred: a pending request must stay invisible to a thread that never calls myth_testcancel */
+  if (c->cancel) myth_cancel(myth_self());
+  return c->fn(c->arg);
+}
+int mt_create(myth_thread_t * id, myth_func_t fn, void * arg) {
+  int k = __sync_fetch_and_add(&cr_n, 1);
+  int flavour = (cr_b8 & 1) ? (int)(((cr_b8 >> 1) + (unsigned)k) % 5) : 0;
+  int cancel = ((cr_b9 & 7) == 7) || ((cr_b9 & 7) == 6 && (k & 1));
+  myth_thread_attr_t at; myth_thread_attr_t * ap = 0;
+  if (flavour) {
+    myth_thread_attr_init(&at); ap = &at;
+    if (flavour == 2 || flavour == 3) at.child_first = 0;
+    if (flavour >= 3) myth_thread_attr_setstacksize(&at, 70000);
+  }
+  cr_stat[flavour]++; if (cancel) cr_stat[5]++;
+  if (cancel && k < 8192) { cr_pool[k].fn = fn; cr_pool[k].arg = arg; cr_pool[k].cancel = 1; return myth_create_ex(id, ap, cr_tramp, &cr_pool[k]); }
+  return myth_create_ex(id, ap, fn, arg);
+}
+
 void mt_lib_finish(void) {
+  if (cr_stat[1] + cr_stat[2] + cr_stat[3] + cr_stat[4]) mt_label("creation_flavours"); if (cr_stat[2] + cr_stat[3]) mt_label("parent_first_creation"); if (cr_stat[5]) mt_label("pending_cancel_request");
   mv_finished();
   mv_disable();
 }
